@@ -112,13 +112,22 @@ func ExtractTypeNameMap(v interface{}) (map[string]reflect.Type, map[string]stri
 // holdsInterface reports whether values of container type t can hold
 // interface-typed elements (directly or in nested containers)
 func holdsInterface(t reflect.Type) bool {
+	return typeHoldsInterface(t, make(map[reflect.Type]bool))
+}
+
+// (a declared container type may contain itself, type Tree []Tree: every type is looked at once)
+func typeHoldsInterface(t reflect.Type, visited map[reflect.Type]bool) bool {
+	if visited[t] {
+		return false
+	}
+	visited[t] = true
 	switch t.Kind() {
 	case reflect.Interface:
 		return true
 	case reflect.Slice, reflect.Array, reflect.Ptr:
-		return holdsInterface(t.Elem())
+		return typeHoldsInterface(t.Elem(), visited)
 	case reflect.Map:
-		return holdsInterface(t.Key()) || holdsInterface(t.Elem())
+		return typeHoldsInterface(t.Key(), visited) || typeHoldsInterface(t.Elem(), visited)
 	}
 	return false
 }
@@ -191,20 +200,30 @@ func TypeMapOf(typ reflect.Type) map[string]reflect.Type {
 
 //FetchType map
 func FetchType(typ reflect.Type, typMap map[string]reflect.Type) {
+	fetchType(typ, typMap, make(map[reflect.Type]bool))
+}
+
+func fetchType(typ reflect.Type, typMap map[string]reflect.Type, visited map[reflect.Type]bool) {
 	typ = UnpackPtrType(typ)
 
 	if IsRawKind(typ.Kind()) {
 		return
 	}
 
+	// a declared container type may contain itself (type Tree []Tree)
+	if visited[typ] {
+		return
+	}
+	visited[typ] = true
+
 	if typ.Kind() == reflect.Array || typ.Kind() == reflect.Slice {
-		FetchType(typ.Elem(), typMap)
+		fetchType(typ.Elem(), typMap, visited)
 		return
 	}
 
 	if typ.Kind() == reflect.Map {
-		FetchType(typ.Key(), typMap)
-		FetchType(typ.Elem(), typMap)
+		fetchType(typ.Key(), typMap, visited)
+		fetchType(typ.Elem(), typMap, visited)
 		return
 	}
 
@@ -219,7 +238,7 @@ func FetchType(typ reflect.Type, typMap map[string]reflect.Type) {
 
 	typMap[typ.Name()] = typ
 	for i := 0; i < typ.NumField(); i++ {
-		FetchType(typ.Field(i).Type, typMap)
+		fetchType(typ.Field(i).Type, typMap, visited)
 	}
 
 }
